@@ -582,6 +582,153 @@ def changed_environment_stream(ctx, res):
                         "not applied to the field (the variable had been set in between)", dict(case2, held=cfg2[path]))
 
 
+def odd_names_and_moved_items_stream(ctx, res):
+    """(a) derived names are the upper-cased key, nothing else: keys with letters outside ASCII (`größe`, a section `zürich`) and keys
+    that are no identifiers (`max-conn`) derive `APP_GRÖSSE`, `APP_ZÜRICH_PORT`, `APP_MAX-CONN`; the variable of that name is taken at
+    construction, survives two loads, and yields to assignment; (b) a field class with a `__setkey__` of its own (`ApplicationModeField`)
+    is named and bound like every other field, at every depth; an invalid variable makes construction fail; (c) item configurations
+    that were ASSIGNED values and are then handed to another configuration's list keep those values (the variable fills only what
+    nobody assigned)"""
+    import os
+    import cincoconfig as cc
+    # (a)
+    s = cc.Schema(env="APP")
+    s["gr\u00f6\u00dfe"] = cc.IntField(default=1)
+    s["max-conn"] = cc.IntField(default=3)
+    s["z\u00fcrich"].port = cc.IntField(default=5)
+    s["z\u00fcrich"]["flu\u00df"].name = cc.StringField(default="Aare")
+    s.plain = cc.IntField(default=9)
+    expected = {"gr\u00f6\u00dfe": "APP_" + "gr\u00f6\u00dfe".upper(), "max-conn": "APP_MAX-CONN", "z\u00fcrich.port": "APP_" + "z\u00fcrich".upper() + "_PORT",
+                "z\u00fcrich.flu\u00df.name": "APP_" + "z\u00fcrich".upper() + "_" + "flu\u00df".upper() + "_NAME", "plain": "APP_PLAIN"}
+    values = {"gr\u00f6\u00dfe": "42", "max-conn": "17", "z\u00fcrich.port": "8080", "z\u00fcrich.flu\u00df.name": "Limmat", "plain": "10"}
+    names = {p: f.env for p, _, f in cc.get_all_fields(s) if isinstance(f, cc.Field)}
+    res.case("odd-names:derived", kind="odd-names")
+    if names != expected:
+        res.violate("C14:derived-name", "a derived variable name is not the upper-cased, underscore-joined path below the prefix", {"stream": "odd-names", "got": names, "want": expected})
+    else:
+        for p, var in expected.items():
+            os.environ[var] = values[p]
+        try:
+            cfg = s()
+            want = {"gr\u00f6\u00dfe": 42, "max-conn": 17, "z\u00fcrich.port": 8080, "z\u00fcrich.flu\u00df.name": "Limmat", "plain": 10}
+            doc = {"gr\u00f6\u00dfe": 7, "max-conn": 3, "z\u00fcrich": {"port": 1, "flu\u00df": {"name": "Aare"}}, "plain": 2}
+            for step in ("construction", "load 1", "load 2"):
+                if step != "construction":
+                    cfg.load_tree(json.loads(json.dumps(doc)))
+                got = {p: cfg[p] for p in want}
+                res.case("odd-names:" + step, kind="odd-names")
+                if got != want:
+                    res.violate("C14:variable-not-held", "a field whose derived variable name has letters outside [A-Z0-9_] does not hold its variable after " + step,
+                                {"stream": "odd-names", "step": step, "got": got, "want": want})
+                    break
+            cfg["max-conn"] = 99
+            if cfg["max-conn"] != 99:
+                res.violate("C14:assignment-lost-against-variable", "an assignment did not override the variable", {"stream": "odd-names"})
+        except Exception as e:  # noqa
+            res.violate("C14:variable-not-held", "building / loading a schema with such keys raised %s" % type(e).__name__, {"stream": "odd-names", "error": str(e)[:100]})
+        finally:
+            for var in expected.values():
+                os.environ.pop(var, None)
+    # (b)
+    for depth in (0, 1, 2):
+        for helpers in (True, False):
+            s = cc.Schema(env="SVC")
+            h = s
+            path = []
+            for q in ("run", "job")[:depth]:
+                h = h[q]
+                path.append(q)
+            h.mode = cc.ApplicationModeField(default="development", modes=["development", "production", "staging"], create_helpers=helpers)
+            h.other = cc.StringField(default="o")
+            dotted = ".".join(path + ["mode"])
+            var = "SVC_" + "_".join(q.upper() for q in path + ["mode"])
+            case = {"stream": "own-setkey", "depth": depth, "helpers": helpers, "expected_variable": var}
+            res.case(stable(case), kind="own-setkey")
+            got_name = {p: f.env for p, _, f in cc.get_all_fields(s) if isinstance(f, cc.Field)}.get(dotted)
+            if got_name != var:
+                res.violate("C14:derived-name", "a field class with its own __setkey__ is not named like every other field", dict(case, got=got_name))
+                continue
+            os.environ[var] = "staging"
+            try:
+                cfg = s()
+                cfg.load_tree({})
+                held = cfg[dotted]
+                tree = {}
+                cur = tree
+                for q in path:
+                    cur[q] = {}
+                    cur = cur[q]
+                cur["mode"] = "production"
+                cfg.load_tree(tree)
+                held2 = cfg[dotted]
+            except Exception as e:  # noqa
+                held = held2 = "raised %s" % type(e).__name__
+            finally:
+                os.environ.pop(var, None)
+            if held != "staging" or held2 != "staging":
+                res.violate("C14:variable-not-held", "an application-mode field does not hold its (derived) variable at construction and after a load", dict(case, held=held, after_load=held2))
+                continue
+            os.environ[var] = "bogus"
+            try:
+                try:
+                    s()
+                    built = True
+                except cc.ValidationError:
+                    built = False
+                except Exception:  # noqa
+                    built = None
+            finally:
+                os.environ.pop(var, None)
+            if built is not False:
+                res.violate("C14:invalid-variable-accepted", "an invalid variable of an application-mode field did not make construction fail with a validation error", dict(case, built=built))
+    # (c)
+    tls = cc.Schema()
+    tls.verify = cc.BoolField(default=True, env="CINCO_T_C14M_VERIFY")
+    node = cc.Schema()
+    node.name = cc.StringField(default="n")
+    node.port = cc.IntField(default=1, env="CINCO_T_C14M_PORT")
+    node.weight = cc.IntField(default=1)
+    node.tls = tls
+    for typed in (False, True):
+        N = cc.make_type(node, "MovedEnvNode") if typed else node
+        s = cc.Schema()
+        s.cluster.nodes = cc.ListField(N, default=lambda: [])
+        os.environ["CINCO_T_C14M_PORT"] = "7000"
+        os.environ["CINCO_T_C14M_VERIFY"] = "false"
+        try:
+            for how in ("assign-list", "append-item", "insert-item", "extend"):
+                a, b = s(), s()
+                a.cluster.nodes = [{"name": "a1", "weight": 3}, {"name": "a2", "weight": 0}]
+                for i, it in enumerate(a.cluster.nodes):
+                    it.port = 9001 + i                     # assignment beats the variable
+                    it.tls.verify = True
+                b.cluster.nodes = [{"name": "b1"}]
+                try:
+                    if how == "assign-list":
+                        b.cluster.nodes = a.cluster.nodes
+                    elif how == "append-item":
+                        b.cluster.nodes.append(a.cluster.nodes[1])
+                    elif how == "insert-item":
+                        b.cluster.nodes.insert(0, a.cluster.nodes[1])
+                    else:
+                        b.cluster.nodes.extend(list(a.cluster.nodes))
+                    moved = [x for x in b.cluster.nodes if x.name.startswith("a")]
+                    got = sorted((x.name, x.port, x.weight, x.tls.verify) for x in moved)
+                    b.load_tree({})
+                    got2 = sorted((x.name, x.port, x.weight, x.tls.verify) for x in b.cluster.nodes if x.name.startswith("a"))
+                except Exception as e:  # noqa
+                    got = got2 = "raised %s" % type(e).__name__
+                want = [("a1", 9001, 3, True), ("a2", 9002, 0, True)] if how in ("assign-list", "extend") else [("a2", 9002, 0, True)]
+                case = {"stream": "moved-items-env", "config_type": typed, "how": how}
+                res.case(stable(case), kind="moved-items-env")
+                if got != want or got2 != want:
+                    res.violate("C14:assignment-lost-against-variable", "values ASSIGNED to item configurations were replaced by the environment variable when the items were handed "
+                                "to another configuration's list", dict(case, got=repr(got), after_load=repr(got2), want=repr(want)))
+        finally:
+            os.environ.pop("CINCO_T_C14M_PORT", None)
+            os.environ.pop("CINCO_T_C14M_VERIFY", None)
+
+
 def run(ctx, n_quick=120, n_thorough=4000):
     res = Result()
     guard(res, "C14", names_stream, ctx, res)
@@ -591,6 +738,7 @@ def run(ctx, n_quick=120, n_thorough=4000):
     guard(res, "C14", per_configuration_stream, ctx, res)
     guard(res, "C14", every_kind_stream, ctx, res)
     guard(res, "C14", changed_environment_stream, ctx, res)
+    guard(res, "C14", odd_names_and_moved_items_stream, ctx, res)
     return res
 
 
